@@ -760,4 +760,8 @@ impl TagExt for Tag {
 #[allow(unused_imports, dead_code, missing_docs)]
 pub mod verif_hooks {
     use super::*;
+
+    pub fn feature_is_global(f: &Feature) -> bool {
+        f.is_global()
+    }
 }
